@@ -1,0 +1,7 @@
+//go:build !verif
+
+package rpc
+
+// verifSyncAt marks a verification point of the clock-sync protocol (see
+// verif_sync_on.go, build tag "verif"). Without the tag it does nothing.
+func verifSyncAt(owner any, point string, args ...any) {}
